@@ -81,6 +81,7 @@ VALUES = [
     '2000000.0', '2000000.0004', '2000000.0015', '123456.789', '123456.7905', '1e9', '1e9 + 0.5', '[2000000.0015]', "{'k': 2000000.0}",
     '{1.0, 1.0004}', '{1.0, 2.0}', '{1.0004, 2.0}', '[{1.0, 2.0}]',
     # containers whose elements are of different types (typed containers look at every element)
+    "{1.0: 'yes'}", "{1.0004: 'no'}", "{1.0004: 'yes'}", "{2.0: 'yes'}", "[{1.0: 1}]", "[{1.0004: 2}]",
     "[1, 'a']", "['a', 1]", "[1, 2, 'x', 3]", "{1, 'a'}", "{'k': 1, 'j': 'x'}", "{'k': 1, 2: 3}", "(1, 'a', 2)", "[[1], ['a']]", "[1, None]",
 ]
 # pairs straddling the tolerance, always driven (quick samples the full product above)
@@ -89,7 +90,8 @@ BOUNDARY_PAIRS = [('1.0', '1.0004'), ('1.0', '1.002'), ('1.0004', '0.9996'), ('2
                   ('(1, 2000000.0015)', '(1, 2000000.0)'), ('0', '0.0004'), ('0', '0.002'), ('-0.0', '0.0009'), ('2 ** 70', '2.0 ** 70 + 4096'),
                   ('1e300', '1.0000001e300'), ('3', '3.0004'), ('3', '3.002'),
                   ('{1.0, 1.0004}', '{1.0, 2.0}'), ('{1.0004, 2.0}', '{1.0, 2.0}'), ('[{1.0, 1.0004}]', '[{1.0, 2.0}]'), ('{1.0, 1.0004, 3.0}', '{1.0, 2.0, 3.0}'),
-                  ('{1.0: 1, 1.0004: 2}', '{1.0: 1, 2.0: 2}')]
+                  ('{1.0: 1, 1.0004: 2}', '{1.0: 1, 2.0: 2}'), ("{1.0: 'yes'}", "{1.0004: 'no'}"), ("{1.0: 'yes'}", "{1.0004: 'yes'}"), ("{1.0: 'yes'}", "{2.0: 'yes'}"),
+                  ('[{1.0: 1}]', '[{1.0004: 2}]'), ("{'Name': 1}", "{'name': 2}"), ("{'Name': 1}", "{'name': 1}"), ("{'a b': [1]}", "{'A, B!': [2]}"), ("{'k': {1.0: 'a'}}", "{'k': {1.0004: 'b'}}"), ('{1.0: [1, 2]}', '{1.0004: [1, 3]}')]
 BOUNDARY_ASSERTIONS = ['assert_equal', 'assert_not_equal', 'assert_in', 'assert_not_in', 'assert_contains_subset', 'assert_not_contains_subset',
                        'assert_almost_equal', 'assert_not_almost_equal', 'assert_less', 'assert_greater_equal', 'assert_less_equal', 'assert_greater']
 ERROR_OPERAND = '<error-result-of-failing-call>'
@@ -160,14 +162,28 @@ def doc_equal(a, b):
     if isinstance(a, dict) and isinstance(b, dict):
         if len(a) != len(b):
             return False
-        if any(isinstance(k, str) for k in a) and set(a) != set(b) and {str(k).lower() for k in a} == {str(k).lower() for k in b}:
-            raise Open('dictionary keys that differ only by normalisation')
+        # keys that are equal only after string normalisation or within the float tolerance: whether they count as the same key is
+        # not documented (open) - but under either reading the dictionaries are NOT equal when the values under them differ
+        only_loosely = False
         for k in a:
+            if k in b and type(k) is type([k2 for k2 in b if k2 == k][0]):
+                if not doc_equal(a[k], b[k]):
+                    return False
+                continue
             match = [k2 for k2 in b if same_key(k, k2)]
             if not match:
+                if isinstance(k, str) and any(isinstance(k2, str) and k2.lower() == k.lower() for k2 in b):
+                    k2 = [k2 for k2 in b if isinstance(k2, str) and k2.lower() == k.lower()][0]
+                    if not doc_equal(a[k], b[k2]):
+                        return False
+                    only_loosely = True
+                    continue
                 return False
             if not doc_equal(a[k], b[match[0]]):
                 return False
+            only_loosely = True
+        if only_loosely:
+            raise Open('dictionary keys that are equal only after normalisation / within the tolerance')
         return True
     if isinstance(a, (set, frozenset)) and isinstance(b, (set, frozenset)):
         if type(a) is not type(b):
@@ -337,6 +353,15 @@ class Harness:
         from pedal.core.report import MAIN_REPORT
         self.report = MAIN_REPORT
         self.n = 0
+        self.in_group = 0
+
+    def section_group(self):
+        from pedal.source.sections import FeedbackSourceSection
+        return FeedbackSourceSection(1)
+
+    def plain_group(self):
+        from pedal.core.feedback import FeedbackGroup
+        return FeedbackGroup(label='verif_group')
 
     def operand(self, expr):
         """-> (raw, proxy)"""
@@ -430,6 +455,20 @@ def check_cell(ctx, h, name, a_expr, b_expr):
             if o != exp:
                 ctx.violation('C07|%s|expected-%s|got-%s|%s' % (name, exp, o.split('(')[0], why), dict(case, wrapping=wname),
                               '%s; outcome %s; operand kinds %s; wrapping %s' % (why, o, sig, wname))
+        # ---- the same assertion while a feedback group is open in the report (a source section, a question): same outcome ------
+        h.in_group += 1
+        if why not in ('relation-holds', 'relation-does-not-hold') or h.in_group % 6 == 0:
+            for gname, make in (('source-section', h.section_group), ('plain-feedback-group', h.plain_group)):
+                grp = make()
+                h.report.start_group(grp)
+                try:
+                    o = h.outcome(name, a_raw, b_raw)
+                finally:
+                    h.report.stop_group(grp)
+                ctx.count('cells_checked_inside_a_group')
+                if o != exp:
+                    ctx.violation('C07|%s|inside-an-open-%s|expected-%s|got-%s|%s' % (name, gname, exp, o.split('(')[0], why), dict(case, wrapping='raw/raw', group=gname),
+                                  '%s; outcome %s while a %s is the report\'s current group; operand kinds %s' % (why, o, gname, sig))
     else:
         ctx.count('open_cells_(metamorphic only)')
     # ---- wrapping invariance -----------------------------------------------------------------------------
@@ -577,6 +616,41 @@ def check_output_assertions(ctx, h):
             ctx.violation('C07|%s|expected-fails|got-%s|error-execution' % (name, o.split(':')[0]), {'assertion': name, 'execution': 'boom()'}, o)
 
 
+def check_output_history(ctx):
+    """output assertions about an execution that is NOT the latest one - in particular the very first execution of a sandbox
+    (an evaluate() before the student's program was ever run) - judge that execution's own output"""
+    from pedal.core.commands import clear_report, contextualize_report
+    from pedal.core.report import MAIN_REPORT
+    from pedal.sandbox import commands as sbx
+    import pedal.assertions.runtime as rt
+    clear_report()
+    contextualize_report(STUDENT)
+    first = sbx.evaluate("print('FIRST ONE') or 7")          # execution number 0 of this sandbox
+    sbx.run()
+    second = sbx.call('shout', 'second')
+    third = sbx.call('shout', 'third')
+    silent = sbx.call('identity', 5)
+    table = [(first, 'FIRST ONE', 'first-execution-of-the-sandbox'), (second, 'SECOND', 'an-earlier-execution'), (third, 'THIRD', 'the-one-before-last')]
+    for operand, printed, which in table:
+        for text in ('FIRST ONE', 'SECOND', 'THIRD', 'nothing like it'):
+            eq = norm_string(printed) == norm_string(text)
+            contains = text.lower() in printed.lower()
+            for name, holds in (('assert_output', eq), ('assert_not_output', not eq), ('assert_output_contains', contains), ('assert_not_output_contains', not contains)):
+                n0 = len(MAIN_REPORT.feedback)
+                try:
+                    fb = getattr(rt, name)(operand, text)
+                    o = 'fails' if bool(fb) else 'silent'
+                except Exception as e:
+                    o = 'raised:%s' % type(e).__name__
+                ctx.count('cells_checked')
+                ctx.count('output_cells_about_earlier_executions')
+                ctx.case('%s|%s|%r' % (name, which, text))
+                exp = 'silent' if holds else 'fails'
+                if o != exp:
+                    ctx.violation('C07|%s|expected-%s|got-%s|operand-is-%s' % (name, exp, o.split(':')[0], which),
+                                  {'assertion': name, 'scenario': 'output-history', 'operand': which, 'printed_by_it': printed, 'text': text}, o)
+
+
 UNIT_CASES = [((1, 2), 3, True), ((1, 2), 4, False), ((0, 0), 0, True), ((-1, 1), 0, True), ((1, 'a'), 0, False), (("'a'", "'b'"), 'ab', None),
               (('a', 'b'), 'ab', True), ((1.0004, 0), 1.0, True), ((1, 2.5), 3.5, True), ((2, 2), 5, False), (([1], [2]), [1, 2], True),
               ((1,), 0, False), ((None, 1), 1, False)]
@@ -683,9 +757,13 @@ def run(ctx):
     if ctx.shard % 4 == 0:
         check_output_assertions(ctx, h)
     check_unit_tests(ctx, h, rng, ctx.pick(25, 400))
+    if ctx.shard % 4 == 1:
+        check_output_history(ctx)
 
 
 def replay(ctx, case):
+    if case.get('scenario') == 'output-history':
+        return check_output_history(ctx)
     h = Harness()
     if 'cases' in case:
         return
